@@ -108,6 +108,12 @@ type a3Finding struct {
 	status string // ok | bad | undecided
 }
 
+// reviewed insertions under a computed key: function -> {key transform, reason it is injective on the ranged keys}
+var a3DerivedKeyTable = map[string][2]string{
+	"in_toto.RecordArtifacts":   {"path/filepath.ToSlash", "the keys are results of one filepath.Walk in the native, cleaned spelling; exchanging the separator maps distinct walk results to distinct names"},
+	"in_toto.recordArtifacts$1": {"path/filepath.Join", "the keys are the cleaned walk results below one symlink target; re-rooting them at the symlink's own path keeps distinct results distinct (a collision with an existing entry is reported by R-C13-3's collision check at the caller)"},
+}
+
 func (c *Ctx) a3Loop(l *mapLoop) []a3Finding {
 	var out []a3Finding
 	fn := fname(l.f)
@@ -430,16 +436,59 @@ func (c *Ctx) a3Loop(l *mapLoop) []a3Finding {
 				out = append(out, a3Finding{"", "update of the current key of the ranged map", "existing key, no new key is added", mu, "ok"})
 				continue
 			}
-			if reason, ok := a3MapWriteTable[fn]; ok {
-				okGuard := c.cleanGuard(l, mu)
-				if okGuard {
-					out = append(out, a3Finding{"", "insertion into the ranged map", "reviewed: " + reason + " [guard checked]", mu, "ok"})
-				} else {
-					out = append(out, a3Finding{"A3.4", "insertion into the ranged map", "the reviewed guard (path.Clean(k) != k, new key = path.Clean(k)) was not found", mu, "bad"})
-				}
+			// reviewed idiom, wherever it is written: the new key is path.Clean(k), stored under the guard path.Clean(k) != k;
+			// Clean is idempotent, so a re-visited new key is skipped and the outcome does not depend on the order
+			if c.cleanGuard(l, mu) {
+				out = append(out, a3Finding{"", "insertion into the ranged map", "reviewed idiom: " + a3MapWriteTable["in_toto.verifyMatchRule"] + " [guard checked]", mu, "ok"})
+				continue
+			}
+			if _, ok := a3MapWriteTable[fn]; ok {
+				out = append(out, a3Finding{"A3.4", "insertion into the ranged map", "the reviewed guard (path.Clean(k) != k, new key = path.Clean(k)) was not found", mu, "bad"})
 				continue
 			}
 			out = append(out, a3Finding{"A3.4", "insertion into the ranged map", "a key other than the current one is stored into the map being iterated: Go may or may not visit it", mu, "bad"})
+		}
+	}
+	// (6) insertion into another map under a key computed from the current key: two keys of the ranged map may be
+	// mapped to the same new key, and which element survives depends on the iteration order - unless the stored
+	// value does not depend on the element (a set insertion) or the key is the current key itself (distinct keys).
+	for b := range l.body {
+		for _, in := range b.Instrs {
+			mu, ok := in.(*ssa.MapUpdate)
+			if !ok || resolve(mu.Map, mu) == resolve(l.rng.X, l.rng) {
+				continue
+			}
+			k := resolve(mu.Key, mu)
+			if k == l.key || !l.fromIter(mu.Key) {
+				continue
+			}
+			if _, isConst := mu.Value.(*ssa.Const); isConst || !l.fromIter(mu.Value) {
+				continue
+			}
+			if st, isStruct := mu.Value.Type().Underlying().(*types.Struct); isStruct && st.NumFields() == 0 {
+				continue
+			}
+			// a map allocated inside the loop body is private to the iteration
+			if mk, isMk := resolve(mu.Map, mu).(*ssa.MakeMap); isMk && l.body[mk.Block()] && mk.Block() != l.header {
+				continue
+			}
+			// the key is the current key of another (nested) range over the very map that is updated
+			nested := false
+			for _, l2 := range mapLoops(l.f) {
+				if l2 != l && resolve(l2.rng.X, l2.rng) == resolve(mu.Map, mu) && k == l2.key {
+					nested = true
+				}
+			}
+			if nested {
+				continue
+			}
+			if rv, ok := a3DerivedKeyTable[fn]; ok {
+				if pc, _ := producer(k, mu); pc != nil && calleeName(pc) == rv[0] {
+					out = append(out, a3Finding{"", "insertion under " + rv[0] + "(current key)", "reviewed: " + rv[1], mu, "ok"})
+					continue
+				}
+			}
+			out = append(out, a3Finding{"A3.6", "insertion under a key computed from the current key (" + short(org(mu.Key)) + ")", "two keys of the ranged map can be mapped to the same new key; the element that survives is the one visited last, which depends on the iteration order", mu, "bad"})
 		}
 	}
 	if len(out) == 0 {
@@ -664,7 +713,9 @@ func anchored(re *syntax.Regexp) bool {
 }
 
 // cleanGuard: MapUpdate key is path.Clean(k) and the store is dominated by path.Clean(k) != k.
-func (c *Ctx) cleanGuard(l *mapLoop, mu *ssa.MapUpdate) bool {
+func (c *Ctx) cleanGuard(l *mapLoop, mu *ssa.MapUpdate) bool { return c.Prog.cleanGuard(l, mu) }
+
+func (c *Prog) cleanGuard(l *mapLoop, mu *ssa.MapUpdate) bool {
 	kc, ok := resolve(mu.Key, mu).(*ssa.Call)
 	if !ok || calleeName(kc) != "path.Clean" || resolve(kc.Call.Args[0], kc) != l.key {
 		return false
